@@ -3,7 +3,7 @@
     map iteration order; a read-only shared store); the schedules the Go scheduler actually produces
     and the memory model are observed on the running code under the race detector, not proved. *)
 From Coq Require Import Sorting.Sorted Sorting.Permutation.
-From MowCli Require Import Base Nfa Matchers Apply Values Cmd ValueProofs OrderProofs SortProofs Generated Tie.
+From MowCli Require Import Base Nfa Matchers Apply Values Cmd ValueProofs OrderProofs SortProofs NamedProofs Generated Tie.
 
 Section C20.
   Variable parse_float : str -> option str.
@@ -72,6 +72,16 @@ Section C20.
       NoDup o1 -> (forall k, In k o1 -> bindable opts k) -> Permutation o1 o2 ->
       go_sorted nat (name_at opts) o1 -> go_sorted nat (name_at opts) o2 -> o1 = o2.
   Proof. exact (sorted_visit_is_a_function parse_float getenv). Qed.
+
+  (** ... and for the options that an accepted line binds nothing has to be assumed: an occurrence is recognised by
+      looking a name up, so a bound option has a name ([NamedProofs.bound_options_are_bindable]) *)
+  Theorem C20_fill_order_of_an_accepted_line_is_unique :
+    forall ds opts args g start argv bs (o1 o2 : list nat),
+      declare parse_float getenv ds [] [] = inl (opts, args) ->
+      fsm_apply (optinfo_of opts) g start argv = AOk bs ->
+      NoDup o1 -> (forall k, In k o1 -> values_for (KO k) bs <> []) -> Permutation o1 o2 ->
+      go_sorted nat (name_at opts) o1 -> go_sorted nat (name_at opts) o2 -> o1 = o2.
+  Proof. exact (fill_order_of_an_accepted_line_is_unique parse_float getenv). Qed.
 
   Theorem C20_sorted_visit_is_a_function_args :
     forall ds opts args (o1 o2 : list nat),
@@ -149,5 +159,6 @@ Print Assumptions C20_map_order.
 Print Assumptions C20_any_visiting_order.
 Print Assumptions C20_sorted_visit_is_a_function.
 Print Assumptions C20_sorted_visit_is_a_function_args.
+Print Assumptions C20_fill_order_of_an_accepted_line_is_unique.
 Print Assumptions C20_noninterference.
 Print Assumptions C20_shared_store_is_read_only.
